@@ -43,12 +43,15 @@ WCorrupt(t, fl, hf) == [nodes |-> << F(1, 0, "a.txt", Run(120, 5), NoZip, FALSE)
 Clocks == <<1493640000, 1490918400, 1462017600>>      \* 2017-05-01 12:00, 2017-03-31 00:00, 2016-04-30 12:00 (UTC)
 QVariants == { [wh |-> w, ord |-> o, lim |-> k] : w \in BOOLEAN, o \in {"none", "size-", "size+"}, k \in (0 .. 14) \cup {17, 30} }
 
-Init == kind = "" /\ variant = [wh |-> FALSE, ord |-> "none", lim |-> 0, t |-> -1, flip |-> 0, clock |-> 0, depth |-> 0, owncfg |-> FALSE] /\ phase = "start"
+Init == kind = "" /\ variant = [wh |-> FALSE, ord |-> "none", lim |-> 0, t |-> -1, flip |-> 0, clock |-> 0, depth |-> 0, owncfg |-> FALSE, mind |-> 0, tz |-> "UTC"] /\ phase = "start"
 (* depth: `depth N` on the root (0 = none): the members of an archive lying exactly at level N are still listed *)
 ChooseMembers == /\ phase = "start" /\ kind' = "members"
                  \* owncfg: the complete default configuration file the program writes for a new user (every extension list present)
-                 /\ \E c \in 1 .. 3, d \in 0 .. 2, oc \in BOOLEAN : (c = 1 \/ d = 0) /\ (~oc \/ d = 0)
-                       /\ variant' = [variant EXCEPT !.clock = Clocks[c], !.depth = d, !.owncfg = oc] /\ phase' = "done"
+                 \* mind: `mindepth N` on the root: the members of an archive above level N are outside the window like the archive itself
+                 \* tz: the stored time of a member has no zone: it is shown as stored whatever the zone of the process is
+                 /\ \E c \in 1 .. 3, d \in 0 .. 2, oc \in BOOLEAN, mn \in {0, 2, 3}, z \in {"UTC", "Etc/GMT-3", "Etc/GMT+5"} :
+                       (c = 1 \/ d = 0) /\ (~oc \/ d = 0) /\ (mn = 0 \/ (c = 1 /\ d = 0 /\ ~oc)) /\ (z = "UTC" \/ (c = 1 /\ d = 0 /\ ~oc /\ mn = 0))
+                       /\ variant' = [variant EXCEPT !.clock = Clocks[c], !.depth = d, !.owncfg = oc, !.mind = mn, !.tz = z] /\ phase' = "done"
 ChooseQuery == /\ phase = "start" /\ kind' = "query"
                /\ \E v \in QVariants : variant' = [variant EXCEPT !.wh = v.wh, !.ord = v.ord, !.lim = v.lim, !.clock = Clocks[1]]
                /\ phase' = "done"
@@ -65,13 +68,14 @@ Cols == "path, size, is_dir, mode, modified, suid, sgid"
 QText(arc) == "select path, size from '.'" \o (IF arc THEN " archives" ELSE "") \o (IF variant.wh THEN " where size > 4" ELSE "")
               \o (CASE variant.ord = "none" -> "" [] variant.ord = "size-" -> " order by size desc" [] variant.ord = "size+" -> " order by size")
               \o (IF variant.lim > 0 THEN " limit " \o ToString(variant.lim) ELSE "") \o " into list"
-DepthText == IF variant.depth > 0 THEN " depth " \o ToString(variant.depth) ELSE ""
+DepthText == (IF variant.depth > 0 THEN " depth " \o ToString(variant.depth) ELSE "") \o (IF variant.mind > 0 THEN " mindepth " \o ToString(variant.mind) ELSE "")
 Scenario ==
   IF kind = "members" THEN
-     [prop |-> "C19", kind |-> kind, class |-> "members/clock" \o ToString(variant.clock) \o (IF variant.depth > 0 THEN "/depth" \o ToString(variant.depth) ELSE "") \o (IF variant.owncfg THEN "/own-default-config" ELSE ""),
+     [prop |-> "C19", kind |-> kind, class |-> "members/clock" \o ToString(variant.clock) \o (IF variant.depth > 0 THEN "/depth" \o ToString(variant.depth) ELSE "") \o (IF variant.mind > 0 THEN "/mindepth" \o ToString(variant.mind) ELSE "")
+                                                                  \o (IF variant.tz # "UTC" THEN "/" \o variant.tz ELSE "") \o (IF variant.owncfg THEN "/own-default-config" ELSE ""),
       world |-> WArc, variant |-> variant,
       env |-> IF variant.owncfg THEN [tz |-> "UTC", cwd |-> 0, fake_epoch |-> variant.clock, config |-> [own_default |-> TRUE]]
-              ELSE [tz |-> "UTC", cwd |-> 0, fake_epoch |-> variant.clock, config |-> [debug |-> FALSE]],
+              ELSE [tz |-> variant.tz, cwd |-> 0, fake_epoch |-> variant.clock, config |-> [debug |-> FALSE]],
       runs |-> << [tag |-> "arc", ncols |-> 7, chars |-> FALSE, argv |-> << "select " \o Cols \o " from '.'" \o DepthText \o " archives into list" >>],
                   [tag |-> "plain", ncols |-> 7, chars |-> FALSE, argv |-> << "select " \o Cols \o " from '.'" \o DepthText \o " into list" >>] >>]
   ELSE IF kind = "query" THEN
